@@ -470,6 +470,9 @@ func Run(ctx *core.Ctx) {
 		"specially (User-Agent, Authorization with/without site credentials, Proxy-Authorization, Host, framing and hop-by-hop names, Via, X-Forwarded-*, " +
 		"Accept-Encoding, Cookie, Expect, ...; sender gives none / one / several lines) end to end through the in-process proxy and the real binary " +
 		"(requests direct / upstream / intercepted, responses, CONNECT headers), judged on the message the hop receives: non-trivial when the list of the side is non-empty; " +
+		"the three lists written down as flags (per rule, CSV records), FORWARDER_* variables, config-file lists and strings (YAML/JSON/TOML), with and without CSV quoting, " +
+		"values with commas / quotes / semicolons / blanks / rule-like tails, through the flag type's CSV reader, the real command tree in-process and the real binary " +
+		"(start-up verdict + hop oracle over every name): non-trivial when some list is given (CSV strings: several fields or a quote); " +
 		"distinct = distinct canonical inputs")
 	// corpus first
 	for _, c := range core.LoadCorpus(ctx.Root, "C16") {
@@ -502,9 +505,16 @@ func Run(ctx *core.Ctx) {
 			ctx.Sample(ac)
 		}
 	}
+	// how the lists arrive: the flag type's CSV reading and the real command tree in-process (flags, environment,
+	// config file) against Model.C16Src
+	runAllSources(ctx)
+	// ... and through the real binary (start-up verdict, hop oracle); side by side with the hop environments
+	srcDone := make(chan struct{})
+	go func() { defer close(srcDone); runBinarySources(ctx) }()
 	// every rule kind against the names the pipeline treats specially, end to end (in-process proxy and the
 	// real binary), judged on the message the next hop receives
 	runAllHops(ctx)
+	<-srcDone
 	// wiring of the three lists to message kinds, through the real binary (all 8 on/off combinations)
 	runAllDispatch(ctx)
 }
@@ -532,6 +542,14 @@ func Replay(ctx *core.Ctx, raw json.RawMessage) {
 		var hc hopCase
 		json.Unmarshal(raw, &hc)
 		replayHop(ctx, &hc)
+	case "csv":
+		var cc csvCase
+		json.Unmarshal(raw, &cc)
+		checkCSV(ctx, cc)
+	case "source":
+		var sc sourceCase
+		json.Unmarshal(raw, &sc)
+		replaySource(ctx, &sc)
 	default:
 		core.Fatalf("C16: unknown case kind %q", k.Kind)
 	}
